@@ -1228,6 +1228,13 @@ func compileExpr(context *funcContext, reg int, expr ast.Expr, ec *expcontext) i
 			raiseCompileError(context, sline(ex), "cannot use '...' outside a vararg function")
 		}
 		context.Proto.IsVarArg &= ^VarArgNeedsArg
+		if sreg < reg {
+			// OP_VARARG leaves the registry top just above its last result: storing directly into a local
+			// below the free registers would cut off every live register above that local
+			code.AddABC(OP_VARARG, reg, 2, 0, sline(ex))
+			code.AddABC(OP_MOVE, sreg, reg, 0, sline(ex))
+			return 0
+		}
 		code.AddABC(OP_VARARG, sreg, 2+ec.varargopt, 0, sline(ex))
 		if context.RegTop() > (sreg+2+ec.varargopt) || ec.varargopt < -1 {
 			return 0
